@@ -35,7 +35,9 @@ ASSUMPTIONS = ["pi is an abstract positive constant in the theorems; 2*pi = 6.28
                "(the library recomputes and resets it to the default one): only that psd, sides and frequencies(), read in that order, describe the "
                "same function of frequency and that it is the one of the statement.  frequencies() called between such an assignment and the next "
                "read of psd is executed but not compared (it still reports the old layout on the unchanged tree: candidate finding, "
-               "/tmp/finding_C08.py, marked RULING (DESIGN 0.9: frequencies() follows the current `sides` attribute and does not recompute; a psd read that recomputes resets `sides`; the properties observe psd first) in the module); sampling values assigned in a history stay inside (1e-2, 1e5)",
+               "/tmp/finding_C08.py, marked RULING (DESIGN 0.9: frequencies() follows the current `sides` attribute and does not recompute; a psd read that recomputes resets `sides`; the properties observe psd first) in the module); sampling values assigned in a history stay inside (1e-2, 1e5), except the questionable ones of template try, "
+               "which are replaced by the last valid value before anything is observed (whether the library accepts or refuses them is not C08's business: "
+               "only that nothing of them is left once a valid value has been assigned again)",
                "arma2psd bin by bin (a2pbin): AR parts with |A(f)| < 2e-10 at a grid frequency are redrawn (a pole of the spectrum ON the grid has "
                "no value to compare); zeros of B exactly on the grid are kept (the value there is 0 or ~1e-32 and must come out as >= 0 "
                "and at most the rounding enclosure)"]
@@ -59,6 +61,11 @@ RULE = ("all 14 estimator class variants x real/complex data x NFFT in {None, ne
         "interleaved with psd / o() / run() / get_converted_psd / frequencies reads and with rejected assignments (unknown sides, NFFT 0 / 2.5, "
         "complex one-sided), seven templates + a random walk over the same alphabet; at every observation psd (read first), sides, frequencies(), "
         "df, the attributes and get_converted_psd(L) / frequencies(L) for every layout are compared with a fresh object built with the final values "
+        "(template try, every class variant x real/complex in the quick tier: QUESTIONABLE assignments the library may accept or refuse -- sampling = 0 / 0.0 / "
+        "-100.0 / -sampling / nan / +-inf / a string / None, NFFT = -3 / a string, scale_by_freq = 'yes' / None --, alone or followed by a psd read at that "
+        "value, inside try/except, each immediately followed by re-assigning the last valid value of that attribute, then an NFFT change / a flip / "
+        "another sampling frequency / nothing, fixed part + random walk: the final values are valid in both cases and df, frequencies() of every "
+        "layout, psd and the 2*pi/df factor must be those of the fresh object; a df that is nan is reported) "
         "and brought to the claimed layout, and with the formula (fresh unscaled estimate x sampling factor x 2*pi/df once), the values paired with "
         "frequencies() by frequency bin; len(psd) == len(frequencies()); bin-wise rtol 1e-12")
 
@@ -611,6 +618,35 @@ def _hist_bad(o, what, isreal):
         pass
 
 
+# Questionable assignments (op ["try", name] / ["try", name, "read"]): values a library may accept OR refuse -- the unchanged tree accepts
+# sampling = 0 / 0.0 / -100.0 / -sampling / nan / inf (df becomes 0, negative, nan, inf) and refuses a string / None (TypeError, after having
+# stored it), refuses NFFT = -3 / 'many' and scale_by_freq = 'yes' / None.  The assignment (and, with "read", a psd read at that value: it
+# may fail or return garbage) runs inside try/except; whatever happened, the LAST VALID value of that attribute is assigned again right
+# after it, so the final attribute values are valid and inside the quantifier in both cases and every later observation must equal a
+# fresh object built with them (df = sampling/NFFT): a setter that stores part of a refused value before raising (in the Range helper,
+# say), or an early "same value, nothing to do" return of the re-assignment, must not leave anything behind.
+HIST_TRY = {"fs:0": ("sampling", 0), "fs:0.0": ("sampling", 0.0), "fs:neg": ("sampling", -100.0), "fs:-fs": ("sampling", "-current"),
+            "fs:nan": ("sampling", float("nan")), "fs:inf": ("sampling", float("inf")), "fs:-inf": ("sampling", float("-inf")),
+            "fs:str": ("sampling", "fast"), "fs:none": ("sampling", None),
+            "nfft:-3": ("NFFT", -3), "nfft:str": ("NFFT", "many"), "scale:yes": ("scale_by_freq", "yes"), "scale:none": ("scale_by_freq", None)}
+HIST_TRY_FS = ("fs:0", "fs:0.0", "fs:neg", "fs:-fs", "fs:nan", "fs:inf", "fs:-inf", "fs:str", "fs:none")
+
+
+def _hist_try(o, name, read, st):
+    attr, v = HIST_TRY[name]
+    if isinstance(v, str) and v == "-current":
+        v = -st["fs"]
+    last_valid = {"sampling": st["fs"], "NFFT": st["nfft_arg"], "scale_by_freq": st["scale"]}[attr]
+    with np.errstate(all="ignore"):
+        try:
+            setattr(o, attr, v)
+            if read:
+                o.psd
+        except Exception:
+            pass
+    setattr(o, attr, last_valid)         # valid: must not raise, and must bring the object back whether or not v had been accepted
+
+
 def hist_tags(p):
     """what the history does, by a replay of the ops on the documented state machine (layout reset by a recomputation / NFFT change)"""
     isreal = np.isrealobj(p["x"])
@@ -644,6 +680,11 @@ def hist_tags(p):
             lay, upd = dflt, False
         elif w == "bad":
             tags.add("hist:rejected-" + op[1])
+        elif w == "try":
+            tags.add("hist:try-" + op[1] + ("+read" if len(op) > 2 else ""))
+            tags.add("hist:try@%s/%s" % (lay, "up-to-date" if upd else "pending"))
+            if op[1].startswith("fs:"):          # accepted or half-stored by the unchanged tree, then re-assigned: recomputation pending
+                upd = False
     return sorted(tags)
 
 
@@ -696,96 +737,109 @@ def oracle_hist(p):
     sib.psd
     sib.sides = layouts[1]
     sib_psd = np.array(sib.psd)
-    for i, op in enumerate(p["ops"]):
-        w = op[0]
-        if w == "read":
-            o.psd
-        elif w == "call":
-            o()
-        elif w == "run":
-            o.run()
-        elif w == "sides":
-            o.sides = op[1]
-        elif w == "scale":
-            o.scale_by_freq = op[1]
-            st["scale"] = op[1]
-        elif w == "fs":
-            o.sampling = op[1]
-            st["fs"] = op[1]
-        elif w == "nfft":
-            o.NFFT = op[1]
-            st["nfft_arg"] = op[1]
-            st["nfft"] = C.resolved_nfft(x, op[1])
-        elif w == "freq":
-            # RULING (DESIGN 0.9: frequencies() follows the current `sides` attribute and does not recompute; a psd read that recomputes resets `sides`; the properties observe psd first) (/tmp/finding_C08.py): on the unchanged tree frequencies() called BETWEEN an assignment of scale_by_freq /
-            # sampling to an object in a non-default layout and the next read of psd still returns the axis of the old layout, while the
-            # psd read right after it comes back in the default layout (`plot(p.frequencies(), p.psd)` pairs them wrongly).  Until that
-            # is ruled on, the call is made (it must not disturb anything) but its value is compared only inside "obs", after psd was read.
-            o.frequencies()
-        elif w == "bad":
-            _hist_bad(o, op[1], isreal)
-        elif w == "conv":
-            g = np.array(o.get_converted_psd(op[1]))
-            cmp(i, "get_converted_psd(%r)" % op[1], g, formula(op[1]), "b")
-        elif w == "obs":
-            nfft, fs = st["nfft"], float(st["fs"])
-            psd = np.array(o.psd)                    # psd first: the snapshot is what the object reports once it is up to date
-            sd = o.sides
-            f = np.asarray(o.frequencies(), dtype=float)
-            if sd not in layouts:
-                out.append("%s: sides is %r [%s]" % (tag, sd, done(i)))
-                break
-            if o.scale_by_freq is not st["scale"] or o.sampling != st["fs"] or o.NFFT != nfft or abs(o.df - fs / nfft) > 1e-12 * fs / nfft:
-                out.append("%s: attributes read back scale_by_freq=%r sampling=%r NFFT=%r df=%r, assigned %r, %r, %r (df %r) [%s]" % (
-                    tag, o.scale_by_freq, o.sampling, o.NFFT, o.df, st["scale"], st["fs"], nfft, fs / nfft, done(i)))
-            if psd.shape != f.shape:
-                out.append("%s: psd has %d values but frequencies() %d (sides %r, NFFT=%d) [%s]" % (tag, psd.size, f.size, sd, nfft, done(i)))
-            else:
-                # pair the values with the frequencies the object reports: {frequency bin mod NFFT: value}
-                kb = np.rint(f / (fs / nfft)).astype(int) % nfft
-                ref = formula(sd)
-                rb = axis_bins(sd, nfft) % nfft
-                if len(set(kb.tolist())) != kb.size or set(kb.tolist()) != set(rb.tolist()):
-                    out.append("%s: frequencies() (sides %r) does not name the bins of that layout once each [%s]" % (tag, sd, done(i)))
+    i = -1
+    try:          # an operation with valid arguments (or an observation at valid attribute values) that raises is reported, with the history so far
+        for i, op in enumerate(p["ops"]):
+            w = op[0]
+            if w == "read":
+                o.psd
+            elif w == "call":
+                o()
+            elif w == "run":
+                o.run()
+            elif w == "sides":
+                o.sides = op[1]
+            elif w == "scale":
+                o.scale_by_freq = op[1]
+                st["scale"] = op[1]
+            elif w == "fs":
+                o.sampling = op[1]
+                st["fs"] = op[1]
+            elif w == "nfft":
+                o.NFFT = op[1]
+                st["nfft_arg"] = op[1]
+                st["nfft"] = C.resolved_nfft(x, op[1])
+            elif w == "freq":
+                # RULING (DESIGN 0.9: frequencies() follows the current `sides` attribute and does not recompute; a psd read that recomputes resets `sides`; the properties observe psd first) (/tmp/finding_C08.py): on the unchanged tree frequencies() called BETWEEN an assignment of scale_by_freq /
+                # sampling to an object in a non-default layout and the next read of psd still returns the axis of the old layout, while the
+                # psd read right after it comes back in the default layout (`plot(p.frequencies(), p.psd)` pairs them wrongly).  Until that
+                # is ruled on, the call is made (it must not disturb anything) but its value is compared only inside "obs", after psd was read.
+                o.frequencies()
+            elif w == "bad":
+                _hist_bad(o, op[1], isreal)
+            elif w == "try":
+                try:
+                    _hist_try(o, op[1], len(op) > 2, st)
+                except Exception as e:
+                    out.append("%s: re-assigning the last valid value after the questionable assignment %s raises %s: %s [%s]" % (
+                        tag, op[1], type(e).__name__, e, done(i)))
+                    break
+            elif w == "conv":
+                g = np.array(o.get_converted_psd(op[1]))
+                cmp(i, "get_converted_psd(%r)" % op[1], g, formula(op[1]), "b")
+            elif w == "obs":
+                nfft, fs = st["nfft"], float(st["fs"])
+                psd = np.array(o.psd)                    # psd first: the snapshot is what the object reports once it is up to date
+                sd = o.sides
+                f = np.asarray(o.frequencies(), dtype=float)
+                if sd not in layouts:
+                    out.append("%s: sides is %r [%s]" % (tag, sd, done(i)))
+                    break
+                if o.scale_by_freq is not st["scale"] or o.sampling != st["fs"] or o.NFFT != nfft or not abs(o.df - fs / nfft) <= 1e-12 * fs / nfft:   # "not <=": a nan df is reported
+                    out.append("%s: attributes read back scale_by_freq=%r sampling=%r NFFT=%r df=%r, assigned %r, %r, %r (df %r) [%s]" % (
+                        tag, o.scale_by_freq, o.sampling, o.NFFT, o.df, st["scale"], st["fs"], nfft, fs / nfft, done(i)))
+                if psd.shape != f.shape:
+                    out.append("%s: psd has %d values but frequencies() %d (sides %r, NFFT=%d) [%s]" % (tag, psd.size, f.size, sd, nfft, done(i)))
                 else:
-                    want_at = dict(zip(rb.tolist(), ref.tolist()))
-                    refv = np.array([want_at[k] for k in kb.tolist()])
-                    if measure:
-                        _HIST_DEV["b"] = max(_HIST_DEV["b"], _devs(psd, refv))
-                    if not close(psd, refv, HIST_TOL):
-                        with np.errstate(all="ignore"):
-                            j = int(np.nanargmax(np.abs(psd - refv) / np.abs(refv)))
-                        out.append("%s: psd paired with frequencies() (sides now %r): the value reported at frequency bin %d is %.9g, but the fresh unscaled "
-                                   "estimate times %s there is %.9g (%s) [%s]" % (
-                                       tag, sd, int(kb[j]) if sd != "centerdc" or kb[j] < nfft - nfft // 2 else int(kb[j]) - nfft, psd[j],
-                                       "%.6g * 2*pi/df" % samp_factor(cls, fs / fs0) if st["scale"] else "%.6g" % samp_factor(cls, fs / fs0),
-                                       refv[j], worst(psd, refv), done(i)))
-            # absolute frequency axes: bin * sampling / NFFT for the claimed layout and for every layout asked by name
-            for L, fL in [(sd, f)] + [(L, np.asarray(o.frequencies(L), dtype=float)) for L in SIDES]:
-                axis = axis_bins(L, nfft) * fs / nfft
-                if fL.shape != axis.shape or not np.all(np.abs(fL - axis) <= 1e-12 * abs(fs)):
-                    out.append("%s: frequencies(%s) at sampling=%r, NFFT=%d (sides now %r) is not bin*sampling/NFFT (%s) [%s]" % (
-                        tag, "" if fL is f else repr(L), st["fs"], nfft, sd, "length %d, expected %d" % (fL.size, axis.size) if fL.shape != axis.shape else
-                        "max deviation %.3e" % float(np.max(np.abs(fL - axis))), done(i)))
-            # (a) a fresh object with the final attribute values, brought to the same layout
-            fr = make(st["nfft_arg"], st["fs"], st["scale"])
-            fr.psd
-            if sd != dflt:
-                fr.sides = sd
-            cmp(i, "psd (sides now %r)" % sd, psd, np.array(fr.psd), "a")
-            # every layout, read through get_converted_psd, against (b) and (a)
-            for L in layouts:
-                g = np.array(o.get_converted_psd(L))
-                cmp(i, "get_converted_psd(%r) (sides now %r)" % (L, sd), g, formula(L), "b")
-                cmp(i, "get_converted_psd(%r) (sides now %r)" % (L, sd), g, np.array(fr.get_converted_psd(L)), "a")
-                if g.size != np.size(o.frequencies(L)):
-                    out.append("%s: get_converted_psd(%r) has %d values, frequencies(%r) %d [%s]" % (tag, L, g.size, L, np.size(o.frequencies(L)), done(i)))
-            if o.sides != sd or not np.array_equal(np.array(o.psd), psd):
-                out.append("%s: reading get_converted_psd / frequencies changed psd or sides (%r -> %r) [%s]" % (tag, sd, o.sides, done(i)))
-        else:
-            raise ValueError(op)
-        if len(out) >= 4:
-            break
+                    # pair the values with the frequencies the object reports: {frequency bin mod NFFT: value}
+                    kb = np.rint(f / (fs / nfft)).astype(int) % nfft
+                    ref = formula(sd)
+                    rb = axis_bins(sd, nfft) % nfft
+                    if len(set(kb.tolist())) != kb.size or set(kb.tolist()) != set(rb.tolist()):
+                        out.append("%s: frequencies() (sides %r) does not name the bins of that layout once each [%s]" % (tag, sd, done(i)))
+                    else:
+                        want_at = dict(zip(rb.tolist(), ref.tolist()))
+                        refv = np.array([want_at[k] for k in kb.tolist()])
+                        if measure:
+                            _HIST_DEV["b"] = max(_HIST_DEV["b"], _devs(psd, refv))
+                        if not close(psd, refv, HIST_TOL):
+                            with np.errstate(all="ignore"):
+                                j = int(np.nanargmax(np.abs(psd - refv) / np.abs(refv)))
+                            out.append("%s: psd paired with frequencies() (sides now %r): the value reported at frequency bin %d is %.9g, but the fresh unscaled "
+                                       "estimate times %s there is %.9g (%s) [%s]" % (
+                                           tag, sd, int(kb[j]) if sd != "centerdc" or kb[j] < nfft - nfft // 2 else int(kb[j]) - nfft, psd[j],
+                                           "%.6g * 2*pi/df" % samp_factor(cls, fs / fs0) if st["scale"] else "%.6g" % samp_factor(cls, fs / fs0),
+                                           refv[j], worst(psd, refv), done(i)))
+                # absolute frequency axes: bin * sampling / NFFT for the claimed layout and for every layout asked by name
+                for L, fL in [(sd, f)] + [(L, np.asarray(o.frequencies(L), dtype=float)) for L in SIDES]:
+                    axis = axis_bins(L, nfft) * fs / nfft
+                    if fL.shape != axis.shape or not np.all(np.abs(fL - axis) <= 1e-12 * abs(fs)):
+                        out.append("%s: frequencies(%s) at sampling=%r, NFFT=%d (sides now %r) is not bin*sampling/NFFT (%s) [%s]" % (
+                            tag, "" if fL is f else repr(L), st["fs"], nfft, sd, "length %d, expected %d" % (fL.size, axis.size) if fL.shape != axis.shape else
+                            "max deviation %.3e" % float(np.max(np.abs(fL - axis))), done(i)))
+                # (a) a fresh object with the final attribute values, brought to the same layout
+                fr = make(st["nfft_arg"], st["fs"], st["scale"])
+                fr.psd
+                if sd != dflt:
+                    fr.sides = sd
+                cmp(i, "psd (sides now %r)" % sd, psd, np.array(fr.psd), "a")
+                # every layout, read through get_converted_psd, against (b) and (a)
+                for L in layouts:
+                    g = np.array(o.get_converted_psd(L))
+                    cmp(i, "get_converted_psd(%r) (sides now %r)" % (L, sd), g, formula(L), "b")
+                    cmp(i, "get_converted_psd(%r) (sides now %r)" % (L, sd), g, np.array(fr.get_converted_psd(L)), "a")
+                    if g.size != np.size(o.frequencies(L)):
+                        out.append("%s: get_converted_psd(%r) has %d values, frequencies(%r) %d [%s]" % (tag, L, g.size, L, np.size(o.frequencies(L)), done(i)))
+                if o.sides != sd or not np.array_equal(np.array(o.psd), psd):
+                    out.append("%s: reading get_converted_psd / frequencies changed psd or sides (%r -> %r) [%s]" % (tag, sd, o.sides, done(i)))
+            else:
+                raise ValueError(op)
+            if len(out) >= 4:
+                break
+    except Exception as e:
+        out.append("%s: %s raises %s: %s although every attribute has a valid value (sampling=%r, NFFT=%r, scale_by_freq=%r) [%s]" % (
+            tag, "the observation (psd / frequencies / get_converted_psd)" if 0 <= i < len(p["ops"]) and p["ops"][i][0] == "obs" else "the operation",
+            type(e).__name__, e, st["fs"], st["nfft"], st["scale"], done(max(i, 0))))
     if sib.sides != layouts[1] or not np.array_equal(np.array(sib.psd), sib_psd):
         out.append("%s: a second %s object (sides %r), untouched during the history, reports another psd / sides (%r) afterwards [%s]" % (
             tag, cls, layouts[1], sib.sides, done(len(p["ops"]) - 1)))
@@ -844,6 +898,34 @@ def _hist_templates(nrng, isreal, s, fs, cfac, nfft_int, nfft2):
         else:
             ops.append(["obs"])
     T["random"] = ops + [["obs"]]
+    # questionable assignments (accepted or refused, see HIST_TRY), each followed by the re-assignment of the last valid value; then an NFFT
+    # change / a flip / nothing, then an observation; a random walk with such assignments in between.  Its random choices come from a
+    # generator of its own (seeded by the case's sampling frequency), so the streams of the other templates are the ones they had before.
+    lr = np.random.default_rng([int(fs * 1e6) & 0xFFFFFFFF, int(nfft_int), int(nfft2)])
+    pk = lambda names: names[int(lr.integers(0, len(names)))]
+    allq = tuple(HIST_TRY)
+    tr = [["read"], ["sides", L1], ["try", pk(HIST_TRY_FS[:5])], ["nfft", nfft2], ["obs"],
+          ["sides", L2], ["try", pk(allq), "read"], ["scale", n], ["obs"],
+          ["fs", fs2], ["read"], ["sides", L1], ["try", pk(HIST_TRY_FS)], ["nfft", nfft_int], ["obs"],
+          ["try", pk(HIST_TRY_FS)], ["obs"], ["sides", L2], ["try", pk(allq)], ["try", pk(allq)], ["fs", fs], ["try", pk(HIST_TRY_FS), "read"],
+          ["nfft", nfft2], ["scale", s], ["obs"]]
+    cur_s = s
+    for t in range(int(lr.integers(6, 12))):
+        r = int(lr.integers(0, 16))
+        if r < 6:
+            tr.append(["try", pk(allq)] + (["read"] if lr.integers(0, 3) == 0 else []))
+        elif r < 8:
+            tr.append(["sides", [L1, L2, "default"][int(lr.integers(0, 3))]])
+        elif r < 10:
+            cur_s = not cur_s
+            tr.append(["scale", cur_s])
+        elif r < 11:
+            tr.append(["fs", [fs, fs * cfac, fs2][int(lr.integers(0, 3))]])
+        elif r < 14:
+            tr.append(["nfft", [nfft2, nfft_int][int(lr.integers(0, 2))]])
+        else:
+            tr.append(["obs"])
+    T["try"] = tr + [["obs"]]
     return T
 
 
@@ -875,7 +957,7 @@ def gen_hist(nrng, thorough):
                 cfac = [4.0, 0.5, 250.0, 2.0][(k // 2) % 4]
                 s = bool((k // 2 + ic) % 2)
                 T = _hist_templates(nrng, not cplx, s, fs, cfac, nfft_int, nfft2)
-                names = HIST_TMPL if thorough else ("flip", HIST_TMPL[1 + (k + rot) % 6])
+                names = HIST_TMPL + ("try",) if thorough else ("flip", HIST_TMPL[1 + (k + rot) % 6], "try")
                 for nm in names:
                     q = {"cls": cls, "x": x, "nfft": nfft, "fs": fs, "scale": s, "c": cfac, "tmpl": nm, "ops": T[nm]}
                     if cfg is not None:
@@ -896,7 +978,7 @@ def gen_hist(nrng, thorough):
             cfac = [4.0, 0.5, 250.0, 2.0][k % 4]
             s = bool((k // 3) % 2)
             T = _hist_templates(nrng, not cplx, s, fs, cfac, nfft_int, [48, 51, 80, 41][k % 4])
-            for nm in (HIST_TMPL if thorough else ("flip", HIST_TMPL[1 + (k // 6 + rot) % 6])):
+            for nm in (HIST_TMPL + ("try",) if thorough else ("flip", HIST_TMPL[1 + (k // 6 + rot) % 6], "try")):
                 yield ("hist", {"cls": opt.split(":")[0], "opt": opt, "x": x, "nfft": nfft, "fs": fs, "scale": s, "c": cfac, "tmpl": nm, "ops": T[nm]})
 
 
